@@ -87,6 +87,7 @@ Fixpoint instr_ind' (P : instr -> Prop) (Hbase : forall i, not_if i -> P i)
   | INotify => Hbase INotify I | ICvWait t => Hbase (ICvWait t) I
   | ILocal t f => Hbase (ILocal t f) I
   | IWaitLoop t => Hbase (IWaitLoop t) I | IStart => Hbase IStart I | IRes => Hbase IRes I | IDone => Hbase IDone I
+  | IRead r => Hbase (IRead r) I
   end.
 
 (* monotonicity *)
@@ -104,7 +105,7 @@ Qed.
 Lemma wpi_mono i : mono_at i.
 Proof.
   induction i as [i Hn | r c a b Ha Hb] using instr_ind'.
-  - intros Q Q' lo HQ H. destruct i as [m|m|a|a|a| |timed|tt f|r c x y|timed| | |]; try destruct a; try (cbn [wpi] in *; solve [auto]); try contradiction.
+  - intros Q Q' lo HQ H. destruct i as [m|m|a|a|a| |timed|tt f|r c x y|timed| | | |rr]; try destruct a; try (cbn [wpi] in *; solve [auto]); try contradiction.
     cbn [wpi] in *. intros t sh. destruct (H t sh) as [H1 H2]. split; auto.
   - intros Q Q' lo HQ H. rewrite wpi_if in *. intros sh. destruct (H sh) as [H1 H2]. split; intros Hc.
     + eapply wpl_mono_F; eauto.
@@ -307,7 +308,7 @@ Ltac endok :=
   lo_simpl; split; lo_simpl; congruence.
 
 Ltac wp_call :=
-  cbn [code_of]; cbv beta iota delta [GenQConc.dqn_dtor_decrement_under_mutex];
+  cbn [code_of]; unfold processif_code, processuntil_code, putback; cbv beta iota delta [GenQConc.dqn_dtor_decrement_under_mutex GenQConc.processif_putback_notifies GenQConc.processuntil_putback_notifies];
   repeat wp2; try so_same; try so_solve; try endok.
 
 Lemma all_calls_wp c : wpl (code_of c) EndOK lo0.
@@ -577,7 +578,7 @@ Proof.
                          mkCfg sh2 (set_th (ths cfg) t th2) (sched cfg) (dead cfg))).
     { apply perform_finish with (th := th); auto using ledger_eq_refl.
       rewrite Est, Ec. cbn [wpl]. exact HW. }
-    destruct i as [m|m|a|a|a| |timed|tt f|r c x y|timed| | |];
+    destruct i as [m|m|a|a|a| |timed|tt f|r c x y|timed| | | |rr];
       try exact Hdef.
     all: try destruct m; try destruct a.
     all: cbv beta iota zeta.
@@ -898,7 +899,7 @@ Proof.
                          mkCfg sh2 (set_th (ths cfg) t th2) (sched cfg) (dead cfg))).
     { apply (perform_pd_finish fuel cfg t th (x + y) (shs cfg) th (x + y) (ths cfg)); auto; [lia|].
       rewrite Est, Ec. cbn [wpl]. exact HW. }
-    destruct i as [m|m|a|a|a| |timed|tt f|r c u v|timed| | |];
+    destruct i as [m|m|a|a|a| |timed|tt f|r c u v|timed| | | |rr];
       try exact Hdef.
     all: try destruct m; try destruct a.
     all: cbv beta iota zeta.
